@@ -153,6 +153,11 @@ def _op_strategies(nown, picked):
         (1, DROP, _fixed('svc', 'del', o=slot, old=OLD)),
         (1, MISC, _fixed('svc', 'stop')),
         (3, REAP, _fixed('svc', 'restart')),
+        # one-shot command failure inside the handlers of the next svc op
+        (2, REAP, _fixed('svc', 'fault', on=st.sampled_from(['ipt', 'net']),
+                         k=st.integers(1, 4))),
+        (2, DROP, _fixed('svc', 'fault', on=st.sampled_from(['ipt', 'net']),
+                         k=st.integers(1, 7))),
     ]
     return {'own': own, 'vip': vip, 'rule': rule, 'ep': ept, 'svc': svc}
 
@@ -225,6 +230,8 @@ def execute(case, stats):
         stats.count('cases.contended')
     if flags.get('gc_mixed'):
         stats.count('cases.gc-mixed')
+    if flags.get('fault'):
+        stats.count('cases.fault-fired')
     return bool(flags.get('contended') and flags.get('gc_mixed'))
 
 
@@ -303,5 +310,24 @@ def fixed_cases():
         {'mgr': 'svc', 'op': 'restart'},
         {'mgr': 'svc', 'op': 'req', 'o': 0},
     ]
-    return [('aimed-vip', vip), ('aimed-rule', rule), ('aimed-ep', ept),
+    svc_fault = [
+        _up(0), _up(2), _up(3),
+        {'mgr': 'svc', 'op': 'req', 'o': 0},
+        {'mgr': 'svc', 'op': 'req', 'o': 2},
+        {'mgr': 'svc', 'op': 'fault', 'on': 'ipt', 'k': 1},
+        {'mgr': 'svc', 'op': 'req', 'o': 3},
+        {'mgr': 'svc', 'op': 'req', 'o': 3},
+        {'mgr': 'svc', 'op': 'fault', 'on': 'net', 'k': 3},
+        {'mgr': 'svc', 'op': 'req', 'o': 3},
+        {'mgr': 'svc', 'op': 'fault', 'on': 'ipt', 'k': 2},
+        {'mgr': 'svc', 'op': 'restart'},
+        {'mgr': 'svc', 'op': 'req', 'o': 3},
+        {'mgr': 'svc', 'op': 'req', 'o': 2},
+        {'mgr': 'svc', 'op': 'fault', 'on': 'ipt', 'k': 1},
+        {'mgr': 'svc', 'op': 'del', 'o': 0},
+        {'mgr': 'svc', 'op': 'fault', 'on': 'net', 'k': 1},
+        {'mgr': 'svc', 'op': 'del', 'o': 2},
+        {'mgr': 'svc', 'op': 'restart'},
+    ]
+    return [('aimed-svc-faults', svc_fault), ('aimed-vip', vip), ('aimed-rule', rule), ('aimed-ep', ept),
             ('aimed-svc-small', svc), ('aimed-svc-16', svc_big)]
